@@ -54,7 +54,7 @@ def site_keys(rows):
 def table_part(ctx):
     t0 = time.time()
     rows, stats = rand_sites.table(core.REPO, core.BUILD, "asan")
-    rand_sites.emit(rows, os.path.join(core.COQ, "Gen", "RandSitesTable.v"))
+    rand_sites.emit(rows, os.path.join(core.COQ, "Gen", "RandSitesTable.v"), stats["optional_rows"], stats["unlisted_rows"])
     ctx.cov["entropy_dependent_functions"] = stats["E"]
     ctx.notes.append("rand-site table: %d functions in E, %d call sites, %s, %.1fs" % (
         len(stats["E"]), len(rows), {k: stats[k] for k in ("files", "cached", "parsed")}, time.time() - t0))
@@ -80,6 +80,38 @@ def table_part(ctx):
         if len(failing) != len(res["failing"]):
             ctx.violation("table:rand-mismatch", "Coq reports %d failing rows, the translator %d" % (len(res["failing"]), len(failing)),
                           {"kind": "proof", "theorem_or_file": "all_sites_checked", "detail": str(res["failing"])[:1500]}, False)
+    # ---- wave 5: the same theorem over the call sites in the C files that only some cmake option / platform compiles;
+    #      files that no cmake source list mentions cannot be part of the library in any configuration: observed, not judged
+    urows = stats["optional_rows"]
+    res2 = tablecheck.run("C18", "RandSitesTable", "rand_sites_optional", "(fun s => (site_key s ++ \"@\" ++ s_how s)%string)", "site_ok", "all_optional_sites_checked",
+                          "forall s, In s rand_sites_optional -> s_result_used s = true /\\ forall v, In v (s_fails s) -> exists t, In t (s_tests s) /\\ distinguishes t v = true",
+                          "rand_table_sound")
+    ctx.cov["obligations"] += 1
+    ctx.cov["theorems"].append({"name": "all_optional_sites_checked (instance over rand_sites_optional, %s rows)" % res2["rows"], "assumptions": [] if res2["closed"] else None})
+    ctx.cov["evaluations"] += len(urows) + len(stats["unlisted_rows"])
+    ctx.cov["unbuilt_sources"] = {"classes": stats["unbuilt_classes"], "not_parsable_here": stats["unbuilt_unparsed"],
+                                  "sites_in_embedded_tests_not_judged": stats["unbuilt_test_sites"]}
+    if res2["proved"] and res2["closed"] and res2["failing"] == []:
+        ctx.cov["discharged"] += 1
+        ctx.cell("table:all_optional_sites_checked:proved")
+    elif res2["failing"] is None:
+        ctx.violation("table:rand-optional-check", "the table check file did not compile: " + res2["log"][-600:],
+                      {"kind": "proof", "theorem_or_file": "all_optional_sites_checked", "detail": res2["log"][-2000:]}, False)
+    else:
+        for k, r in zip(site_keys(urows), urows):
+            if not rand_sites.py_site_ok(r):
+                ctx.violation(k.replace("site:", "site-optional:", 1), "%s:%d %s() %s %s (file compiled only under a non-default cmake option; tests=%s fails=%s)" % (
+                    r["file"], r["line"], r["fn"], "ignores the status of" if not r["used"] else "does not test adequately the status of", r["callee"], r["tests"], r["fails"]),
+                    {"kind": "table-row", "theorem_or_file": "all_optional_sites_checked over coq/Gen/RandSitesTable.v", "row": r}, False)
+    obs = []
+    for r in stats["unlisted_rows"]:
+        ctx.cell("table:unlisted:%s" % ("adequate" if rand_sites.py_site_ok(r) else "inadequate"))
+        if not rand_sites.py_site_ok(r):
+            obs.append("%s:%d %s() %s %s — the file is in no cmake source list, so this is not an operation of the library in any configuration" % (
+                r["file"], r["line"], r["fn"], "ignores the status of" if not r["used"] else "does not test adequately the status of", r["callee"]))
+    ctx.cov["observations"] = obs
+    for o in obs:
+        print("OBSERVATION: property=C18 " + o)
     ctx._rand_stats = stats
     return failing
 
@@ -197,6 +229,7 @@ def urandom_part(ctx):
                 {"kind": "failing-input", "op": line, "impl": o, "expected": "FAILED, or EXACT (every byte of the result delivered by the device, in order)", "variant": "asan+rand.c",
                  "stderr": err[-1200:] if o.startswith("FAULT") else ""}, True)
     ctx.notes.append("urandom back end (%s): %d scripted-device cases in %.1fs" % (",".join(os.path.basename(x) for x in alt), len(cs), time.time() - t0))
+    return exe
 
 
 def phase1(ctx):
@@ -359,7 +392,10 @@ def run(ctx):
             ctx.violation("failopen:%s" % op, "entropy failure at draw %s not reported: `%s` -> %s" % ("(all)" if i == -2 else i, line, o[:200]),
                           {"kind": "failing-input", "op": line, "impl": o, "expected": "FAILCLOSED (return value != 1)", "variant": "asan",
                            "stderr": err2[-1200:] if o.startswith("FAULT") else ""}, True)
-    urandom_part(ctx)
+    ur_exe = urandom_part(ctx)
+    if exe is not None:
+        import modelcmp
+        modelcmp.run(ctx, exe, ur_exe)
     if tlsrun is not None:
         try:
             tlsrun.c18_handshakes(ctx, failing, witnessed)
